@@ -38,14 +38,14 @@ const (
 )
 
 type job struct {
-	id    string // replayable case id: iso:<seed>:<index> | dl:<seed>:<D>:<variant>
-	iso   *isoBatch
-	spec  *batchSpec
-	obs   *batchObs
-	err   string
+	id     string // replayable case id: iso:<seed>:<index> | dl:<seed>:<D>:<variant>
+	iso    *isoBatch
+	spec   *batchSpec
+	obs    *batchObs
+	err    string
 	dir    string
 	after  afterObs
-	unpriv bool // run the worker as uid 65534 (only when the harness itself runs as root)
+	unpriv bool   // run the worker as uid 65534 (only when the harness itself runs as root)
 	bin    string // worker binary: this program, or the instrumented scratch build
 }
 
@@ -524,13 +524,13 @@ func dlEvaluate(res *corr.Result, j *job, model string) (timingSuspects []string
 	}
 	out, err := mdl.Run(model, nil, reqs, 1)
 	if err != nil {
-		res.Disagree(j.id, "", "model driver: "+err.Error())
+		res.DisagreeFor([]string{"C17"}, j.id, "", "model driver: "+err.Error())
 		return
 	}
 	res.Evaluations += len(reqs)
 	pl, ok := parsePlan(out[0])
 	if !ok {
-		res.Disagree(reqs[0], "", out[0])
+		res.DisagreeFor([]string{"C17"}, reqs[0], "", out[0])
 		return
 	}
 	k := 1
@@ -544,7 +544,7 @@ func dlEvaluate(res *corr.Result, j *job, model string) (timingSuspects []string
 			k++
 		}
 		if !member {
-			res.Disagree(j.id+" script "+so.Name+": "+strings.Join(x.alts, " | "), "observed", out[k-1])
+			res.DisagreeFor([]string{"C17"}, j.id+" script "+so.Name+": "+strings.Join(x.alts, " | "), "observed", out[k-1])
 		}
 		execOut := out[k]
 		k++
@@ -552,13 +552,13 @@ func dlEvaluate(res *corr.Result, j *job, model string) (timingSuspects []string
 		if strings.HasPrefix(execOut, "fatal:") {
 			msg := string(corr.Unhx(strings.TrimPrefix(execOut, "fatal:")))
 			if !strings.Contains(so.Log, msg) {
-				res.Disagree(j.id+" script "+so.Name+": "+x.execReq, "log lacks the message: "+tail(so.Log, 300), execOut)
+				res.DisagreeFor([]string{"C17"}, j.id+" script "+so.Name+": "+x.execReq, "log lacks the message: "+tail(so.Log, 300), execOut)
 			}
 			if so.Verdict != "fail" {
-				res.Disagree(j.id+" script "+so.Name+": "+x.execReq, "verdict "+so.Verdict, execOut)
+				res.DisagreeFor([]string{"C17"}, j.id+" script "+so.Name+": "+x.execReq, "verdict "+so.Verdict, execOut)
 			}
 		} else if execOut == "ok" && so.Verdict != "pass" && kind != "edge" {
-			res.Disagree(j.id+" script "+so.Name+": "+x.execReq, "verdict "+so.Verdict+": "+tail(so.Log, 300), execOut)
+			res.DisagreeFor([]string{"C17"}, j.id+" script "+so.Name+": "+x.execReq, "verdict "+so.Verdict+": "+tail(so.Log, 300), execOut)
 		}
 	}
 
@@ -629,8 +629,10 @@ func dlEvaluate(res *corr.Result, j *job, model string) (timingSuspects []string
 	if len(j.after.AlivePids) > 0 {
 		v(fmt.Sprintf("helper processes %v still alive after the run", j.after.AlivePids), "process-leak")
 	}
+	// cleanup observables belong to C04 also when seen in a deadline batch
+	v4 := func(what, class string) { res.Violate("C04", j.id, what, class) }
 	if len(j.after.GotmpEntries) > 0 {
-		v(fmt.Sprintf("temporary root not removed: %v", j.after.GotmpEntries), "root-left")
+		v4(fmt.Sprintf("temporary root not removed: %v", j.after.GotmpEntries), "root-left")
 	}
 	if len(obs.CleanupLog) > 0 {
 		// instrumented run: the context's cancel function is called exactly once, by the finisher that removed the root
@@ -644,7 +646,7 @@ func dlEvaluate(res *corr.Result, j *job, model string) (timingSuspects []string
 			}
 		}
 		if nK != 1 || nR != 1 {
-			v(fmt.Sprintf("cancel called %d times, os.Remove(root) %d times: %s", nK, nR, strings.Join(obs.CleanupLog, "; ")), "cancel-count")
+			v4(fmt.Sprintf("cancel called %d times, os.Remove(root) %d times: %s", nK, nR, strings.Join(obs.CleanupLog, "; ")), "cancel-count")
 		}
 		res.Distribution["deadline-batches-with-cleanup-log"]++
 	}
@@ -743,7 +745,7 @@ func runWosSweep(res *corr.Result, bin, top, tier, model string) {
 	}
 	out, err := mdl.Run(model, nil, live, 0)
 	if err != nil {
-		res.Disagree("<driver>", "", err.Error())
+		res.DisagreeFor([]string{"C17"}, "<driver>", "", err.Error())
 		return
 	}
 	res.Evaluations += len(live)
@@ -783,14 +785,14 @@ func runWosSweep(res *corr.Result, bin, top, tier, model string) {
 	}
 	out2, err := mdl.Run(model, nil, live2, 0)
 	if err != nil {
-		res.Disagree("<driver>", "", err.Error())
+		res.DisagreeFor([]string{"C17"}, "<driver>", "", err.Error())
 		return
 	}
 	clean := len(bads2) == 0
 	for k, o := range out2 {
 		if !strings.HasPrefix(o, "member") {
 			clean = false
-			res.Disagree("wos (second run, alone) "+live2[k], "observed", o)
+			res.DisagreeFor([]string{"C17"}, "wos (second run, alone) "+live2[k], "observed", o)
 		}
 	}
 	for _, b := range bads2 {
@@ -805,7 +807,7 @@ func mergeResult(dst, src *corr.Result) {
 	dst.Evaluations += src.Evaluations
 	dst.DistinctNontrivial += src.DistinctNontrivial
 	for _, d := range src.Disagreements {
-		dst.Disagree(d.Case, d.Impl, d.Model)
+		dst.DisagreeFor(d.Properties, d.Case, d.Impl, d.Model)
 	}
 	dst.NDisagreements += src.NDisagreements - len(src.Disagreements)
 	for _, v := range src.Violations {
@@ -1029,7 +1031,7 @@ func runTsLife(tier string, seed int64, model string, replay string) *corr.Resul
 	seenTrace := map[string]bool{}
 	out, err := mdl.Run(model, nil, reqs, 0)
 	if err != nil {
-		res.Disagree("<driver>", "", err.Error())
+		res.DisagreeFor([]string{"C04"}, "<driver>", "", err.Error())
 	} else {
 		nontrivial := 0
 		for k, r := range refs {
@@ -1037,7 +1039,7 @@ func runTsLife(tier string, seed int64, model string, replay string) *corr.Resul
 				// the logged operations of the real cleanup closures must be a run of the model, ending complete
 				res.Distribution["cleanup-traces-replayed"]++
 				if out[k] != "ok root=0 attempts=1 failed=0 cancels=1 complete=1" {
-					res.Disagree(r.j.id+" :: "+tail(reqs[k], 600), strings.Join(r.j.obs.CleanupLog, "; "), out[k])
+					res.DisagreeFor([]string{"C04"}, r.j.id+" :: "+tail(reqs[k], 600), strings.Join(r.j.obs.CleanupLog, "; "), out[k])
 				}
 				key := reqs[k][strings.LastIndex(reqs[k], " ")+1:]
 				if !seenTrace[key] {
@@ -1049,7 +1051,7 @@ func runTsLife(tier string, seed int64, model string, replay string) *corr.Resul
 			so := &r.j.obs.Scripts[r.i]
 			impl := r.j.observedLine(so, out[k])
 			if impl != out[k] {
-				res.Disagree(r.j.id+" script "+so.Name+" :: "+reqs[k], impl, out[k])
+				res.DisagreeFor([]string{"C04"}, r.j.id+" script "+so.Name+" :: "+reqs[k], impl, out[k])
 			}
 			res.Distribution["verdict-"+so.Verdict]++
 			if len(so.Helpers) > 0 {
